@@ -9,7 +9,7 @@ ALL_DATES = (DATE_MIN, DATE_MAX)
 CLK = "2024 3 15 10 20 30 400000"
 
 
-SPEC_OPS = {"F.try_new", "F.try_new_idx", "F.format", "F.display", "D.trunc", "D.round", "TS.trunc", "TS.round", "OD.trunc", "OD.round", "D.extract",
+SPEC_OPS = {"F.try_new", "F.try_new_idx", "F.format", "F.display", "S.ser_str", "D.trunc", "D.round", "TS.trunc", "TS.round", "OD.trunc", "OD.round", "D.extract",
             "D.dow", "D.try_from_ymd", "D.last_day"}
 
 
@@ -442,6 +442,19 @@ def streams_for(pid, tier, rng):
                 g.append("YM.try_from_ym %d %d" % (y, m))
                 g.append("YM.is_valid_ym %d %d" % (y, m))
         S.append(Stream("ym constructor grid", g))
+        g = []
+        for d in [0, 1, 99999999, 100000000, 100000001, 2147483647, 2147483648, 4294967295]:
+            for h in (0, 1, 23, 24):
+                for mi in (0, 59, 60):
+                    for sc in (0, 59, 60):
+                        for us in (0, 1, 999999, 1000000):
+                            g.append("DT.try_from_dhms %d %d %d %d %d" % (d, h, mi, sc, us))
+                            g.append("DT.is_valid %d %d %d %d %d" % (d, h, mi, sc, us))
+        S.append(Stream("dhms constructor grid", g, ("off", "on")))
+        ext = [-YM_MAX, -YM_MAX + 1, -1200000000, -1073741824, -1, 0, 1, 1073741824, 1200000000, YM_MAX - 1, YM_MAX]
+        S.append(Stream("ordering at the extremes", ["YM.cmp %d %d" % (a, b) for a in ext for b in ext] +
+                        ["DT.cmp %d %d" % (a, b) for a in (-DT_MAX, -DT_MAX + 1, -2 ** 62, -1, 0, 1, 2 ** 62, DT_MAX - 1, DT_MAX)
+                         for b in (-DT_MAX, -2 ** 62, -1, 0, 1, 2 ** 62, DT_MAX)], ("off", "on")))
     elif pid == "C14":
         S.append(ops_stream("scaling x pools", rng, pools,
                             ["YM.mul_f64", "YM.div_f64", "DT.mul_f64", "DT.div_f64", "T.mul_f64", "T.div_f64"], cap * 4))
@@ -451,7 +464,12 @@ def streams_for(pid, tier, rng):
         lines = [rng_dates("S.ser_str D %"), rng_dates("S.ser_bin D %"),
                  "@range 0 %d 1000000 %d S.ser_str T %%" % (USECS_PER_DAY - 1, BLK),
                  "@range 999999 %d 1000000 %d S.ser_str T %%" % (USECS_PER_DAY - 1, BLK)]
-        S.append(Stream("all dates / all seconds serialize", lines, exhaustive=True))
+        for d in (-719162, -1, 0, 19782, 2932896):
+            lines.append("@range %d %d 1000000 %d S.ser_str TS %%" % (d * USECS_PER_DAY, (d + 1) * USECS_PER_DAY - 1, BLK))
+            lines.append("@range %d %d 1000000 %d S.ser_str OD %%" % (d * USECS_PER_DAY, (d + 1) * USECS_PER_DAY - 1, BLK))
+        lines.append("@range %d %d 1000000 %d S.ser_str DT %%" % (-2 * USECS_PER_DAY, 2 * USECS_PER_DAY, BLK))
+        lines.append("@range %d %d 1 %d S.ser_str YM %%" % (-30000, 30000, BLK))
+        S.append(Stream("all dates / all seconds serialize", lines, exhaustive=True, spec=True))
         lines = []
         for y in range(1, 10000, 1 if thorough else 17):
             for (m, d) in [(1, 1), (2, 28), (2, 29), (2, 30), (12, 31), (6, 31), (13, 1), (0, 1), (4, 30)]:
